@@ -151,7 +151,11 @@ func writeObject(w io.Writer, value any) error {
 		}
 		return nil
 	case reflect.Ptr:
-		return writeObject(w, reflect.ValueOf(value).Elem())
+		// a pointer prints as what it points to, a nil one as nil
+		if rt.IsNil() {
+			return nil
+		}
+		return writeObject(w, rt.Elem().Interface())
 	default:
 		_, err := io.WriteString(w, values.Sprint(value))
 		return err
